@@ -101,6 +101,18 @@ func runC12(c c12Case) (*ev.Violation, string) {
 	if r.W.Viol != nil {
 		return r.W.Viol, class
 	}
+	// a node that is outside its current height's committee moves on by sync only: it must still do that, and then work normally
+	if !r.W.InCommittee(r.Me.Idx, r.Me.H()) {
+		class += ":out-of-committee"
+		h0 := r.Me.H()
+		r.SyncPast()
+		if r.W.Viol != nil {
+			return r.W.Viol, class
+		}
+		if r.Me.H() != h0+1 {
+			return viol("node-ignores-sync-after-input", "after the input the out-of-committee node at height %d did not follow UpdateState to height %d", h0, h0+1), class
+		}
+	}
 	// afterwards the node still commits a scripted round, reacts to an election, and to UpdateState
 	hBefore := r.Me.H()
 	if !r.CommitRound() {
@@ -141,6 +153,9 @@ func TestC12N(t *testing.T) {
 		nc.Steps = steps
 		if rapid.IntRange(0, 2).Draw(t, "careless-consumer") == 0 {
 			nc.Cfg.AcceptAllAt = []int{nc.Me} // this node's ValidateBlockProposal approves anything, even a missing block
+		}
+		if nc.Cfg.N >= 5 && rapid.IntRange(0, 5).Draw(t, "out-of-committee") == 0 {
+			nc.Cfg.Absent, nc.Cfg.AbsentH, nc.Cfg.MaxHeight = []int{nc.Me}, 1, 3 // the node is not a member of its current height's committee (one more height: sync, then a round)
 		}
 		c := c12Case{N: nc}
 		c.Mode = rapid.SampledFrom([]string{"raw", "raw", "struct"}).Draw(t, "mode")
